@@ -167,6 +167,13 @@ def setter_from(F, R, b, name, setter_pat, want_fields, arg_idx=1, root=None, ke
             hit.append(bi)
     R.ob('C19.limits', key or name, bool(hit), '%s: no call of the enforcing setter whose argument derives from %s (found %d setter calls)' % (name, '.'.join(want_fields), len(sites)),
          b.loc(sites[0][0]) if sites else None)
+    # "exactly the negotiated one": the stored value is the negotiated field itself, not a combination of it with something else
+    for bi in hit:
+        t = b.blocks[bi]['term']
+        og = Origin(b).of_operand(t['args'][arg_idx])
+        mixed = sorted({(l[1] or '').split('::')[-1] for l in og if l[0] == 'call' and re.search(r'(^std::cmp::(min|max)$|::(min|max|clamp|saturating_\w+|wrapping_\w+|checked_\w+)$)', l[1] or '')} | {'operator ' + str(l[1]) for l in og if l[0] == 'binop' and l[1] not in ('Eq', 'Ne', 'Lt', 'Le', 'Gt', 'Ge')})
+        R.ob('C19.limits', (key or name) + '|stored-as-negotiated', not mixed,
+             '%s: the value handed to the enforcing setter is computed from the negotiated field and something else (%s): the limit in force is not the negotiated one (e.g. min() with a configured value whose 0 means "unlimited" switches the limit off)' % (name, ', '.join(mixed)), b.loc(bi))
     # the negotiated value is stored unconditionally: the setter is not skipped on some path to the dispatcher
     disp = [bi for bi, t in b.calls() if re.search(r'create_dispatcher$|Dispatcher::<.*>::new$|dispatcher::create_dispatcher$|::Dispatcher.*::new$', callee_name(t) or '')]
     if not disp:
